@@ -33,13 +33,20 @@ impl rand::RngCore for ConstRng {
 /// a scripted generator whose state is shared with the harness, so that the harness can see
 /// whether a draw was consumed and recompute it independently with `rand` itself
 #[derive(Clone)]
-pub struct SharedRng(Arc<Mutex<(u64, u64)>>); // (xorshift state, words drawn)
+pub struct SharedRng(Arc<Mutex<(u64, u64)>>, Arc<Mutex<Option<u64>>>); // (xorshift state, words drawn), word forced for the next draw
 impl SharedRng {
     fn new(seed: u64) -> Self {
-        SharedRng(Arc::new(Mutex::new((seed | 1, 0))))
+        SharedRng(Arc::new(Mutex::new((seed | 1, 0))), Default::default())
     }
     fn snapshot(&self) -> (u64, u64) {
         *self.0.lock().unwrap()
+    }
+    /// the next word drawn will be `w` (the xorshift state is not advanced by that draw)
+    fn force_next(&self, w: u64) {
+        *self.1.lock().unwrap() = Some(w);
+    }
+    fn forced(&self) -> Option<u64> {
+        *self.1.lock().unwrap()
     }
 }
 fn xorshift(s: &mut u64) -> u64 {
@@ -55,6 +62,9 @@ impl rand::RngCore for SharedRng {
     fn next_u64(&mut self) -> u64 {
         let mut g = self.0.lock().unwrap();
         g.1 += 1;
+        if let Some(w) = self.1.lock().unwrap().take() {
+            return w;
+        }
         xorshift(&mut g.0)
     }
     fn fill_bytes(&mut self, dst: &mut [u8]) {
@@ -485,12 +495,28 @@ fn congress_history(rng: &mut Rng, thorough: bool, rep: &Report) -> bool {
             let rates = c.verif_group_rates();
             let rate_before = rates.iter().find(|r| r.0.len() == 1 && r.0[0].1 == gname.as_str()).map(|r| r.1).unwrap_or(1.0);
             let is_new = !rates.iter().any(|r| r.0.len() == 1 && r.0[0].1 == gname.as_str());
+            // the boundary draw == rate: whenever the rate in force lies on the grid of possible
+            // draws (multiples of 2^-24), every fourth draw or so is forced onto it or next to it
+            let grid = rate_before as f64 * 16_777_216.0;
+            if rate_before < 1.0 && grid.fract() == 0.0 && rng.below(4) == 0 {
+                let k = (grid as u64).saturating_add_signed(*rng.pick(&[0i64, 0, 1, -1])).min((1 << 24) - 1);
+                shared.force_next(k << 40); // top 24 bits of the word become the draw
+                rep.count("congress_draws_forced_to_rate_boundary", 1);
+            }
             let before = shared.snapshot();
+            let forced = shared.forced();
             let ncalls = rec.len();
             let _ = c.format(&group_entry(next_id, &gname), &mut io::sink());
             let after = shared.snapshot();
             let emitted = rec.len() > ncalls;
-            let draw: Option<f32> = if after.1 > before.1 { Some(Replay(before.0).random::<f32>()) } else { None };
+            let draw: Option<f32> = if after.1 > before.1 {
+                Some(match forced {
+                    Some(w) => ((w >> 40) as f32) / 16_777_216.0,
+                    None => Replay(before.0).random::<f32>(),
+                })
+            } else {
+                None
+            };
             let expect = rate_before == 1.0 || draw.is_some_and(|d| d <= rate_before);
             if emitted != expect {
                 rep.violation(
